@@ -1113,6 +1113,60 @@ Proof.
     + exact Hsaved.
 Qed.
 
+(* the operand a segment carries: the router's operand text (switch), the draw (random), nothing for a timeout or a
+   node without router *)
+Lemma route_to_category_operand b prev cat mtch operand extra evs u op :
+  ro_res (route_to_category' b prev cat mtch operand extra evs) = RExit u op -> op = operand.
+Proof.
+  unfold route_to_category. destruct (N.eqb cat no_uuid).
+  - cbn [ro_res]. intros H; inversion H; reflexivity.
+  - destruct (find_category (b_categories b) cat); [|discriminate].
+    destruct (b_result_name b); cbn [ro_res]; intros H; inversion H; reflexivity.
+Qed.
+
+Lemma route_switch_operand b operand_tpl cases default prev u op :
+  ro_res (route_switch' b operand_tpl cases default prev) = RExit u op -> op = operand_text operand_tpl.
+Proof.
+  unfold route_switch, operand_text, operand_of.
+  destruct (eval_tpl operand_tpl) as [operand e0]. cbn [fst].
+  destruct (match_case' operand cases) as [evs1 m].
+  destruct m as [| | |t c0 x]; cbn [ro_res]; try discriminate.
+  - destruct (N.eqb no_uuid no_uuid && negb (N.eqb default no_uuid)); apply route_to_category_operand.
+  - destruct (N.eqb c0 no_uuid && negb (N.eqb default no_uuid)); apply route_to_category_operand.
+Qed.
+
+Lemma segment_operand_spec site flow_nodes nd is_timeout d timed_out_on prev ex op dest :
+  vo_segment (visit' site flow_nodes nd is_timeout d timed_out_on prev) = Some (ex, op, dest) ->
+  op = match n_router nd with
+       | None => []
+       | Some r =>
+           if is_timeout then []
+           else match r with
+                | Switch _ operand_tpl _ _ => operand_text operand_tpl
+                | Random _ => draw_text d
+                end
+       end.
+Proof.
+  unfold visit.
+  destruct (po_kind (pick_node_exit' nd is_timeout d timed_out_on prev)) eqn:Hk;
+    [destruct site; discriminate | discriminate | discriminate |].
+  cbn [vo_segment]. unfold segment_of.
+  destruct (po_exit (pick_node_exit' nd is_timeout d timed_out_on prev)) as [e|] eqn:He; [|discriminate].
+  destruct (negb (N.eqb (e_dest e) no_uuid) && existsb (N.eqb (e_dest e)) flow_nodes); [|discriminate].
+  intros H. inversion H; subst. clear H.
+  unfold pick_node_exit in *. destruct (n_router nd) as [r|].
+  - destruct (ro_res (if is_timeout then _ else _)) as [| |u operand] eqn:Hres; cbn [po_kind] in Hk; try discriminate.
+    destruct (N.eqb u no_uuid); [discriminate|].
+    destruct (find_exit (n_exits nd) u) as [e'|]; cbn [po_exit po_operand] in *; [|discriminate].
+    destruct is_timeout; [reflexivity|].
+    destruct r as [b operand_tpl cases default | b]; cbn [route] in Hres.
+    + eapply route_switch_operand. exact Hres.
+    + unfold route_random in Hres.
+      destruct (nth_error (b_categories b) _) as [c0|]; [|discriminate].
+      eapply route_to_category_operand. exact Hres.
+  - destruct (find_exit (n_exits nd) _); cbn [po_exit po_operand] in *; [reflexivity|discriminate].
+Qed.
+
 End Proofs.
 
 (* ======================================================================================================== *)
